@@ -99,6 +99,7 @@ def h_fwd(ctx, sver, dver, blen, fake_rssi, mode='meta'):
         ctx.check('remote', remote == ('127.0.0.1', 6700 + 102), got=remote)
         hdr = 8 if dver == 0 else 11
         ctx.check('length', len(o) == hdr + blen + (2 if dver == 0 else 0), got=len(o))
+        if len(o) != hdr + blen + (2 if dver == 0 else 0): return          # the remaining obligations index by layout
         ctx.check('ver', eq(o[0] // 16, dver)); ctx.check('tn', eq(o[0] % 16, m.tn))
         ctx.check('fn', eq(((o[1] * 256 + o[2]) * 256 + o[3]) * 256 + o[4], m.fn))
         rssi = -o[5]; toa = from_be16s(o[6], o[7])
